@@ -10,8 +10,10 @@ def step (line : String) : String :=
   | "layer" :: args => handleRender "layer" args
   | "layerts" :: args => handleRender "layerts" args
   | "maxbbox" :: args => handleRender "maxbbox" args
+  | "childmax" :: args => handleRender "childmax" args
   | "sizebook" :: args => handleRender "sizebook" args
   | "tile" :: args => handleRender "tile" args
+  | "light" :: args => handleRender "light" args
   | "vb2ts" :: args => handleGeom "vb2ts" args
   | "nestedvb" :: args => handleGeom "nestedvb" args
   | "concat" :: args => handleGeom "concat" args
